@@ -1,6 +1,7 @@
 //! Kani proof harnesses: thin wrappers around the bodies in `iroh_docs::verif_incrate`
 //! (see /verif/kani/incrate), plus the environment stubs of DESIGN.md §3.3.
 #![allow(unused)]
+#![recursion_limit = "1024"]
 
 pub mod env;
 
